@@ -35,6 +35,13 @@ def handle (op : String) (j : Json) : R Json := do
   | "c16.readenv" =>
     let e := (optF j "env").bind (fun v => v.getStr?.toOption)
     return obj [("r", jstrs (readAllowEnv e))]
+  | "c16.readallow" =>
+    let e := (optF j "env").bind (fun v => v.getStr?.toOption)
+    let f ← (match optF j "file" with
+      | none => pure none
+      | some Json.null => pure none
+      | some v => (do let a ← arr v; let l ← a.mapM str; pure (some l)) : R (Option (List String)))
+    return obj [("r", jstrs (readAllowlist f e))]
   | _ => throw s!"unknown op {op}"
 
 end Driver.C16
